@@ -19,7 +19,9 @@ pub use cardinality::{CardinalityEstimator, ColumnStats, TableStats};
 pub use cost::{Cost, CostModel};
 pub use join_order::{BitSet, DPccp, JoinGraph, JoinGraphBuilder, JoinPlan};
 
-use crate::query::plan::{FilterOp, LogicalExpression, LogicalOperator, LogicalPlan};
+use crate::query::plan::{
+    FilterOp, JoinType, LogicalExpression, LogicalOperator, LogicalPlan, TripleComponent,
+};
 use grafeo_common::utils::error::Result;
 use std::collections::HashSet;
 
@@ -668,13 +670,19 @@ impl Optimizer {
         op: LogicalOperator,
     ) -> LogicalOperator {
         match op {
-            // Can push through Project if predicate doesn't depend on computed columns
+            // Can push through Project if every variable of the predicate is passed through
+            // unchanged (`x` or `x AS x`): below the projection a computed, renamed or
+            // dropped column means something else or nothing at all
             LogicalOperator::Project(mut proj) => {
                 let predicate_vars = self.extract_variables(&predicate);
-                let computed_vars = self.extract_projection_aliases(&proj.projections);
+                let passes_through = predicate_vars.iter().all(|v| {
+                    Self::is_passed_through(
+                        v,
+                        proj.projections.iter().map(|p| (&p.expression, &p.alias)),
+                    )
+                });
 
-                // If predicate doesn't use any computed columns, push through
-                if predicate_vars.is_disjoint(&computed_vars) {
+                if passes_through {
                     proj.input = Box::new(self.try_push_filter_into(predicate, *proj.input));
                     LogicalOperator::Project(proj)
                 } else {
@@ -686,10 +694,25 @@ impl Optimizer {
                 }
             }
 
-            // Can push through Return (which is like a projection)
+            // Return is a projection too: same rule
             LogicalOperator::Return(mut ret) => {
-                ret.input = Box::new(self.try_push_filter_into(predicate, *ret.input));
-                LogicalOperator::Return(ret)
+                let predicate_vars = self.extract_variables(&predicate);
+                let passes_through = predicate_vars.iter().all(|v| {
+                    Self::is_passed_through(
+                        v,
+                        ret.items.iter().map(|i| (&i.expression, &i.alias)),
+                    )
+                });
+
+                if passes_through {
+                    ret.input = Box::new(self.try_push_filter_into(predicate, *ret.input));
+                    LogicalOperator::Return(ret)
+                } else {
+                    LogicalOperator::Filter(FilterOp {
+                        predicate,
+                        input: Box::new(LogicalOperator::Return(ret)),
+                    })
+                }
             }
 
             // Can push through Expand if predicate doesn't use variables introduced by this expand
@@ -734,11 +757,20 @@ impl Optimizer {
                 let uses_left = predicate_vars.iter().any(|v| left_vars.contains(v));
                 let uses_right = predicate_vars.iter().any(|v| right_vars.contains(v));
 
-                if uses_left && !uses_right {
+                // A filter above the join commutes with the join only on a side whose rows
+                // the join neither pads with NULLs nor uses merely as an existence test
+                let (left_pushable, right_pushable) = match join.join_type {
+                    JoinType::Inner | JoinType::Cross => (true, true),
+                    JoinType::Left => (true, false),
+                    JoinType::Right => (false, true),
+                    JoinType::Full | JoinType::Semi | JoinType::Anti => (false, false),
+                };
+
+                if uses_left && !uses_right && left_pushable {
                     // Push to left side
                     join.left = Box::new(self.try_push_filter_into(predicate, *join.left));
                     LogicalOperator::Join(join)
-                } else if uses_right && !uses_left {
+                } else if uses_right && !uses_left && right_pushable {
                     // Push to right side
                     join.right = Box::new(self.try_push_filter_into(predicate, *join.right));
                     LogicalOperator::Join(join)
@@ -779,20 +811,113 @@ impl Optimizer {
     }
 
     /// Recursively collects output variables from an operator.
+    ///
+    /// The result may contain more names than the operator really outputs (a projection's
+    /// input is included), never fewer: filter push-down relies on "not in this set" meaning
+    /// "not produced by this subtree".
     fn collect_output_variables_recursive(op: &LogicalOperator, vars: &mut HashSet<String>) {
         match op {
             LogicalOperator::NodeScan(scan) => {
                 vars.insert(scan.variable.clone());
+                // A chained scan (`MATCH (a), (b)`) also outputs the columns of its input
+                if let Some(input) = &scan.input {
+                    Self::collect_output_variables_recursive(input, vars);
+                }
             }
             LogicalOperator::EdgeScan(scan) => {
                 vars.insert(scan.variable.clone());
+                if let Some(input) = &scan.input {
+                    Self::collect_output_variables_recursive(input, vars);
+                }
             }
             LogicalOperator::Expand(expand) => {
                 vars.insert(expand.to_variable.clone());
                 if let Some(edge_var) = &expand.edge_variable {
                     vars.insert(edge_var.clone());
                 }
+                if let Some(path_alias) = &expand.path_alias {
+                    vars.insert(path_alias.clone());
+                }
                 Self::collect_output_variables_recursive(&expand.input, vars);
+            }
+            LogicalOperator::LeftJoin(join) => {
+                Self::collect_output_variables_recursive(&join.left, vars);
+                Self::collect_output_variables_recursive(&join.right, vars);
+            }
+            LogicalOperator::AntiJoin(join) => {
+                Self::collect_output_variables_recursive(&join.left, vars);
+                Self::collect_output_variables_recursive(&join.right, vars);
+            }
+            LogicalOperator::Union(union) => {
+                for input in &union.inputs {
+                    Self::collect_output_variables_recursive(input, vars);
+                }
+            }
+            LogicalOperator::Unwind(unwind) => {
+                vars.insert(unwind.variable.clone());
+                Self::collect_output_variables_recursive(&unwind.input, vars);
+            }
+            LogicalOperator::Bind(bind) => {
+                vars.insert(bind.variable.clone());
+                Self::collect_output_variables_recursive(&bind.input, vars);
+            }
+            LogicalOperator::Merge(merge) => {
+                vars.insert(merge.variable.clone());
+                Self::collect_output_variables_recursive(&merge.input, vars);
+            }
+            LogicalOperator::ShortestPath(sp) => {
+                vars.insert(sp.path_alias.clone());
+                Self::collect_output_variables_recursive(&sp.input, vars);
+            }
+            LogicalOperator::CreateNode(create) => {
+                vars.insert(create.variable.clone());
+                if let Some(input) = &create.input {
+                    Self::collect_output_variables_recursive(input, vars);
+                }
+            }
+            LogicalOperator::CreateEdge(create) => {
+                if let Some(variable) = &create.variable {
+                    vars.insert(variable.clone());
+                }
+                Self::collect_output_variables_recursive(&create.input, vars);
+            }
+            LogicalOperator::DeleteNode(op) => {
+                Self::collect_output_variables_recursive(&op.input, vars);
+            }
+            LogicalOperator::DeleteEdge(op) => {
+                Self::collect_output_variables_recursive(&op.input, vars);
+            }
+            LogicalOperator::SetProperty(op) => {
+                Self::collect_output_variables_recursive(&op.input, vars);
+            }
+            LogicalOperator::AddLabel(op) => {
+                Self::collect_output_variables_recursive(&op.input, vars);
+            }
+            LogicalOperator::RemoveLabel(op) => {
+                Self::collect_output_variables_recursive(&op.input, vars);
+            }
+            LogicalOperator::TripleScan(scan) => {
+                for component in [Some(&scan.subject), Some(&scan.predicate), Some(&scan.object), scan.graph.as_ref()]
+                    .into_iter()
+                    .flatten()
+                {
+                    if let TripleComponent::Variable(name) = component {
+                        vars.insert(name.clone());
+                    }
+                }
+                if let Some(input) = &scan.input {
+                    Self::collect_output_variables_recursive(input, vars);
+                }
+            }
+            LogicalOperator::VectorScan(scan) => {
+                vars.insert(scan.variable.clone());
+                if let Some(input) = &scan.input {
+                    Self::collect_output_variables_recursive(input, vars);
+                }
+            }
+            LogicalOperator::VectorJoin(join) => {
+                vars.insert(join.right_variable.clone());
+                Self::collect_output_variables_recursive(&join.input, vars);
             }
             LogicalOperator::Filter(filter) => {
                 Self::collect_output_variables_recursive(&filter.input, vars);
@@ -929,12 +1054,24 @@ impl Optimizer {
         }
     }
 
-    /// Extracts aliases from projection expressions.
-    fn extract_projection_aliases(
-        &self,
-        projections: &[crate::query::plan::Projection],
-    ) -> HashSet<String> {
-        projections.iter().filter_map(|p| p.alias.clone()).collect()
+    /// Whether a projection list hands the variable `var` through unchanged (`var` or
+    /// `var AS var`) and defines no other column of that name.
+    fn is_passed_through<'a>(
+        var: &str,
+        items: impl Iterator<Item = (&'a LogicalExpression, &'a Option<String>)>,
+    ) -> bool {
+        let mut found = false;
+        for (expression, alias) in items {
+            let is_identity = matches!(expression, LogicalExpression::Variable(name) if name == var)
+                && alias.as_deref().is_none_or(|a| a == var);
+            if is_identity {
+                found = true;
+            } else if alias.as_deref() == Some(var) {
+                // `expr AS var`: the name is redefined
+                return false;
+            }
+        }
+        found
     }
 }
 
@@ -1796,5 +1933,107 @@ mod tests {
 
         let optimized = optimizer.optimize(plan).unwrap();
         assert!(matches!(&optimized.root, LogicalOperator::Return(_)));
+    }
+
+    fn scan(variable: &str, input: Option<LogicalOperator>) -> LogicalOperator {
+        LogicalOperator::NodeScan(NodeScanOp {
+            variable: variable.to_string(),
+            label: None,
+            input: input.map(Box::new),
+        })
+    }
+
+    fn prop_eq(left: (&str, &str), right: (&str, &str)) -> LogicalExpression {
+        LogicalExpression::Binary {
+            left: Box::new(LogicalExpression::Property {
+                variable: left.0.to_string(),
+                property: left.1.to_string(),
+            }),
+            op: BinaryOp::Eq,
+            right: Box::new(LogicalExpression::Property {
+                variable: right.0.to_string(),
+                property: right.1.to_string(),
+            }),
+        }
+    }
+
+    #[test]
+    fn test_filter_not_pushed_below_join_when_chained_scan_input_is_used() {
+        // MATCH (a), (b) MATCH (c) WHERE a.v = c.v
+        // The left join input is the chained scan b(a): it outputs a as well as b, so the
+        // predicate uses both join sides and must stay above the join.
+        let plan = LogicalPlan::new(LogicalOperator::Filter(FilterOp {
+            predicate: prop_eq(("a", "v"), ("c", "v")),
+            input: Box::new(LogicalOperator::Join(JoinOp {
+                left: Box::new(scan("b", Some(scan("a", None)))),
+                right: Box::new(scan("c", None)),
+                join_type: JoinType::Cross,
+                conditions: vec![],
+            })),
+        }));
+
+        let optimized = Optimizer::new().optimize(plan).unwrap();
+
+        let LogicalOperator::Filter(filter) = &optimized.root else {
+            panic!("Expected the filter to stay above the join");
+        };
+        assert!(matches!(filter.input.as_ref(), LogicalOperator::Join(_)));
+    }
+
+    #[test]
+    fn test_filter_not_pushed_into_optional_side_of_left_join() {
+        // A predicate on the optional side sees the NULL padding only above the join
+        let plan = LogicalPlan::new(LogicalOperator::Filter(FilterOp {
+            predicate: LogicalExpression::Unary {
+                op: UnaryOp::IsNull,
+                operand: Box::new(LogicalExpression::Property {
+                    variable: "b".to_string(),
+                    property: "v".to_string(),
+                }),
+            },
+            input: Box::new(LogicalOperator::Join(JoinOp {
+                left: Box::new(scan("a", None)),
+                right: Box::new(scan("b", None)),
+                join_type: JoinType::Left,
+                conditions: vec![],
+            })),
+        }));
+
+        let optimized = Optimizer::new().optimize(plan).unwrap();
+
+        let LogicalOperator::Filter(filter) = &optimized.root else {
+            panic!("Expected the filter to stay above the left join");
+        };
+        assert!(matches!(filter.input.as_ref(), LogicalOperator::Join(_)));
+    }
+
+    #[test]
+    fn test_filter_not_pushed_through_return_alias() {
+        // Filter(k > 1) over RETURN n.x AS k: k does not exist below the Return
+        let plan = LogicalPlan::new(LogicalOperator::Filter(FilterOp {
+            predicate: LogicalExpression::Binary {
+                left: Box::new(LogicalExpression::Variable("k".to_string())),
+                op: BinaryOp::Gt,
+                right: Box::new(LogicalExpression::Literal(Value::Int64(1))),
+            },
+            input: Box::new(LogicalOperator::Return(ReturnOp {
+                items: vec![ReturnItem {
+                    expression: LogicalExpression::Property {
+                        variable: "n".to_string(),
+                        property: "x".to_string(),
+                    },
+                    alias: Some("k".to_string()),
+                }],
+                distinct: false,
+                input: Box::new(scan("n", None)),
+            })),
+        }));
+
+        let optimized = Optimizer::new().optimize(plan).unwrap();
+
+        let LogicalOperator::Filter(filter) = &optimized.root else {
+            panic!("Expected the filter to stay above the Return");
+        };
+        assert!(matches!(filter.input.as_ref(), LogicalOperator::Return(_)));
     }
 }
